@@ -74,7 +74,7 @@ def _run(ctx):
         return
     ctx.cov["exhaustive"] = True
     # ---- 2. spec -> code: every maximal behaviour through the real wrapper and the literal Python statement ----
-    plans = [({"MaxOps": 3, "BodyMsgs": 2, "HandlerMsgs": 1, "Thrown": {"Err", "Abort", "Base"}, "InnerRaise": {"ErrI"},
+    plans = [({"MaxOps": 3, "BodyMsgs": 2, "HandlerMsgs": 1, "Thrown": {"Err", "Stop", "Abort", "Base"}, "InnerRaise": {"ErrI"},
                "CatchThrow": True, "MisbehaveClose": True}, KINDS)]
     if not ctx.quick:
         plans = [({"MaxOps": 4, "BodyMsgs": 3, "HandlerMsgs": 2, "Thrown": {"Err", "Stop", "Abort", "Base"},
